@@ -344,3 +344,60 @@ func LeafSignature(it *PItem) string {
 	rec(it)
 	return sb.String()
 }
+
+// PartPos: rfc822 Section.Part(Path...) of the rendered message must be the section with header [H,B) and body [B,E).
+type PartPos struct {
+	Path    []int
+	H, B, E int
+}
+
+func chainEndsInMultipart(n *Node) bool {
+	for n.IsMsg() && n.Embedded != nil {
+		n = n.Embedded
+	}
+	return n.IsMulti()
+}
+
+// PartPositions lists the part paths whose meaning is fixed by construction (RFC 3501 6.4.5): children of multiparts,
+// the parts of a multipart message embedded in a message/rfc822 part, part 1 of an embedded single-part message, and
+// the numbering below message/rfc822 chains that end in a single part. Chains message > message > multipart are left out.
+func PartPositions(tree *Node) []PartPos {
+	var out []PartPos
+	add := func(p []int, n *Node) {
+		out = append(out, PartPos{Path: append([]int{}, p...), H: n.HStart, B: n.BStart, E: n.End})
+	}
+	var recPart func(c *Node, p []int)
+	children := func(m *Node, p []int) {
+		for i, x := range m.Children {
+			q := append(append([]int{}, p...), i+1)
+			add(q, x)
+			recPart(x, q)
+		}
+	}
+	recPart = func(c *Node, p []int) {
+		switch {
+		case c.IsMulti():
+			children(c, p)
+		case c.IsMsg() && c.Embedded != nil:
+			e := c.Embedded
+			q := append(append([]int{}, p...), 1)
+			switch {
+			case e.IsMulti():
+				children(e, p)
+			case e.IsMsg() && e.Embedded != nil:
+				if !chainEndsInMultipart(e) {
+					add(q, e)
+					recPart(e, q)
+				}
+			default:
+				add(q, e)
+			}
+		default:
+			if len(p) == 0 {
+				add([]int{1}, c)
+			}
+		}
+	}
+	recPart(tree, nil)
+	return out
+}
